@@ -44,6 +44,21 @@ CLAIMED = {
         note="Trusted: the typing table in mc/props/c03.py and reftype in mc/core/refsem.py. Refusing a "
              "well-typed application is outside the statement and only counted (listed in the evidence notes).",
         design="§3 C03"),
+    "C16": dict(
+        category="model_checking", engine="explorer",
+        technique="exhaustive enumeration of all legal SMT-LIB command sequences up to a length bound against an "
+                  "executable assertion-stack model, plus explicit-state BFS over solver API histories on the real "
+                  "IncrementalTrackingSolver with state merging",
+        text="(a) every legal command sequence up to length 4 (17-command alphabet), 5 (10 commands) and 8 "
+             "(5 commands) - thorough 5/6/10 - is built through script.add and through the parser and "
+             "get_last_formula (formula, goals, soft clauses, weights, signedness) is compared with the reference "
+             "model; (b) all reachable (implementation x native solver x reference) states of the tracking solver "
+             "to depth 6 (thorough 8) over add/push n/pop n/reset/solve/assumptions/is_sat/is_valid/is_unsat/read; "
+             "assertions, native stack and verdicts are checked in every state.",
+        note="Trusted: the reference stack model in mc/props/c16.py and BruteSolver (mc/core/refsolver.py), which "
+             "follows the protocol of the concrete solvers (clear_pending_pop on proxy methods). Sequences beyond "
+             "the length/depth bounds are not covered.",
+        design="§3 C16"),
 }
 
 PENDING = {}
@@ -51,6 +66,8 @@ for i in range(1, 21):
     PENDING["C%02d" % i] = "check designed in DESIGN.md §3 but not built yet in this revision; no claim is made"
 
 ENGINES = [
+    dict(name="explorer", path="mc/core/explorer.py", serves_properties=["C16"],
+         kind_free_text="explicit-state breadth-first search over API histories replayed on fresh real objects in lock-step with a reference model"),
     dict(name="sweep", path="mc/core/sweep.py", serves_properties=["C01", "C02", "C03"],
          kind_free_text="sharded bounded-exhaustive term enumeration (termgen) + reference semantics (refsem)"),
 ]
